@@ -98,7 +98,7 @@ func c18Gen(r *Rng, tier string, i int) Sx {
 		} else {
 			toggles += "d"
 		}
-		return L(A("val"), B(enabled), B(r.Bool()), A(r.Pick([]string{"json", "xml", "form", "query"})), A("t"+toggles))
+		return L(A("val"), B(enabled), B(r.Bool()), A(r.Pick([]string{"json", "xml", "form", "query"})), A("t"+toggles), A(r.Pick([]string{"plain", "plain", "samename"})))
 	}
 }
 
@@ -165,6 +165,25 @@ func c18Auto(req *http.Request, obj any, k int) error {
 		panic("c18: the binding handler was not reached")
 	}
 	return err
+}
+
+// two distinct struct types whose printed name (%T) is the same "main.Req": one without rules, one with rules
+func c18BindPlainReq(req *http.Request, k int) error {
+	type Req struct {
+		Name string `json:"name" form:"name" query:"name" xml:"name"`
+		Age  int    `json:"age" form:"age" query:"age" xml:"age"`
+	}
+	var v Req
+	return c18Auto(req, &v, k)
+}
+
+func c18BindCheckedReq(req *http.Request, k int) error {
+	type Req struct {
+		Name string `json:"name" form:"name" query:"name" xml:"name" validate:"required|minLen:3"`
+		Age  int    `json:"age" form:"age" query:"age" xml:"age" validate:"min:1"`
+	}
+	var v Req
+	return c18Auto(req, &v, k)
 }
 
 func c18Exec(c Sx) (out Sx) {
@@ -289,6 +308,23 @@ func c18Exec(c Sx) (out Sx) {
 			req.Header.Set("Content-Type", "application/x-www-form-urlencoded")
 		default:
 			req = httptest.NewRequest("GET", "/x?"+vs.Encode(), nil)
+		}
+		if len(c.List) > 5 && c.List[5].Atom == "samename" {
+			// a rule-less type of the same printed name is bound first; the struct with rules is still validated
+			if fm == "json" {
+				plain := httptest.NewRequest("POST", "/x", strings.NewReader(`{"name":"","age":0}`))
+				plain.Header.Set("Content-Type", "application/json")
+				_ = c18BindPlainReq(plain, len(c.String()))
+			} else {
+				_ = c18BindPlainReq(httptest.NewRequest("GET", "/x?name=&age=0", nil), len(c.String()))
+			}
+			if fm == "xml" { // the local types have no XMLName: use the query form for the checked bind
+				req = httptest.NewRequest("GET", "/x?"+vs.Encode(), nil)
+			}
+			if err := c18BindCheckedReq(req, len(c.String())); err != nil {
+				return L(A("val"), A("err"))
+			}
+			return L(A("val"), A("ok"))
 		}
 		var got c18Checked
 		if err := c18Auto(req, &got, len(c.String())); err != nil {
